@@ -15,6 +15,44 @@ fn cases_for(tier: &str, quick: u64, thorough: u64) -> u64 {
     }
 }
 
+/// Thorough tier only: one libFuzzer campaign (tools/fuzz.sh). Returns false on an infrastructure problem.
+fn fuzz_campaign(rep: &mut Report, tier: &str, target: &str, runs: u64, max_len: u32) -> bool {
+    if tier != "thorough" || std::env::var("VERIF_NO_FUZZ").is_ok() {
+        return true;
+    }
+    let root = skv_verif::runner::verif_root();
+    let out = std::process::Command::new(root.join("tools").join("fuzz.sh")).arg(target).arg(runs.to_string()).arg(max_len.to_string()).output();
+    let Ok(out) = out else {
+        println!("fuzz campaign {target} could not be started (not a violation)");
+        return false;
+    };
+    let text = String::from_utf8_lossy(&out.stdout).to_string();
+    let mut summary = serde_json::json!({"target": target, "requested_runs": runs});
+    for line in text.lines() {
+        if let Some(rest) = line.strip_prefix("FUZZ-SUMMARY ") {
+            for kv in rest.split_whitespace() {
+                if let Some((k, v)) = kv.split_once('=') {
+                    summary[k] = v.parse::<u64>().map(|n| serde_json::json!(n)).unwrap_or(serde_json::json!(v));
+                }
+            }
+        }
+        if let Some(p) = line.strip_prefix("FUZZ-VIOLATION ") {
+            rep.violations.push((format!("libFuzzer target {target}: oracle failure"), std::path::PathBuf::from(p.trim())));
+        }
+        if let Some(p) = line.strip_prefix("FUZZ-CRASH ") {
+            rep.violations.push((format!("libFuzzer target {target}: crash (sanitizer report or panic); input saved"), std::path::PathBuf::from(p.trim())));
+        }
+    }
+    rep.extra.insert(format!("libfuzzer_{target}"), summary);
+    match out.status.code() {
+        Some(0) | Some(1) => true,
+        _ => {
+            println!("fuzz campaign {target} was inconclusive (build failure, time-out or memory limit; not a violation): {}", text.lines().last().unwrap_or(""));
+            false
+        }
+    }
+}
+
 fn run_model<C>(defs: Vec<(PropDef<C>, u64, u64)>, tier: &str, replay: Option<PathBuf>) -> i32
 where
     C: Clone + std::fmt::Debug + serde::Serialize + serde::de::DeserializeOwned + Send + 'static,
@@ -68,6 +106,11 @@ fn main() {
             let store = skv_verif::fmt_wal::c12_store();
             run_replays(&store, &findings, &mut rep);
             rep.merge(run_prop(&store, cases_for(tier, 160, 3200), seed, 2, &findings));
+            let fuzz_ok = fuzz_campaign(&mut rep, tier, "wal_damage", 1500, 1024);
+            if !fuzz_ok && rep.violations.is_empty() {
+                let _ = finish(main.id, main.level, tier, seed, &main.rule, &main.assumptions, &rep, t0.elapsed().as_secs_f64(), &findings);
+                std::process::exit(2);
+            }
             finish(main.id, main.level, tier, seed, &main.rule, &main.assumptions, &rep, t0.elapsed().as_secs_f64(), &findings)
         }
         "C13" => {
@@ -86,6 +129,11 @@ fn main() {
             rep.extra.insert("comparator_law_cases".into(), serde_json::json!(laws.evaluations));
             rep.extra.insert("comparator_law_cases_with_shortened_separator".into(), serde_json::json!(laws.nontrivial.len()));
             rep.violations.extend(laws.violations);
+            let fuzz_ok = fuzz_campaign(&mut rep, tier, "sst_roundtrip", 40000, 256);
+            if !fuzz_ok && rep.violations.is_empty() {
+                let _ = finish(main.id, main.level, tier, seed, &main.rule, &main.assumptions, &rep, t0.elapsed().as_secs_f64(), &findings);
+                std::process::exit(2);
+            }
             finish(main.id, main.level, tier, seed, &main.rule, &main.assumptions, &rep, t0.elapsed().as_secs_f64(), &findings)
         }
         "C19" => {
@@ -114,7 +162,26 @@ fn main() {
             finish(main.id, main.level, tier, seed, &rule, &main.assumptions, &rep, t0.elapsed().as_secs_f64(), &findings)
         }
         "C16" => run_model(vec![(skv_verif::engine_corrupt::c16(40), 160, 3200), (skv_verif::engine_corrupt::c16(600), 6, 240)], tier, replay),
-        "C18" => run_model(vec![(skv_verif::fmt_bptree::c18(60, false), 4000, 60000), (skv_verif::fmt_bptree::c18(300, false), 300, 6000), (skv_verif::fmt_bptree::c18(60, true), 400, 6000)], tier, replay),
+        "C18" => {
+            let findings = Findings::load();
+            let main = skv_verif::fmt_bptree::c18(60, false);
+            if let Some(p) = replay {
+                std::process::exit(replay_one(&main, &p, &findings));
+            }
+            let seed = seed_from_env();
+            let t0 = Instant::now();
+            let mut rep = Report::default();
+            run_replays(&main, &findings, &mut rep);
+            rep.merge(run_prop(&main, cases_for(tier, 4000, 60000), seed, 0, &findings));
+            rep.merge(run_prop(&skv_verif::fmt_bptree::c18(300, false), cases_for(tier, 300, 6000), seed, 1, &findings));
+            rep.merge(run_prop(&skv_verif::fmt_bptree::c18(60, true), cases_for(tier, 400, 6000), seed, 2, &findings));
+            let fuzz_ok = fuzz_campaign(&mut rep, tier, "bptree_ops", 40000, 256);
+            if !fuzz_ok && rep.violations.is_empty() {
+                let _ = finish(main.id, main.level, tier, seed, &main.rule, &main.assumptions, &rep, t0.elapsed().as_secs_f64(), &findings);
+                std::process::exit(2);
+            }
+            finish(main.id, main.level, tier, seed, &main.rule, &main.assumptions, &rep, t0.elapsed().as_secs_f64(), &findings)
+        }
         "C01" => {
             use skv_verif::engine_sched::{sched_prop, Flavor};
             let findings = Findings::load();
